@@ -106,6 +106,10 @@ class FakeConnection(secsgem.common.Connection):
     def send_data(self, data: bytes) -> bool:
         sched = simrt.cur_sched()
         sched.yield_point()
+        if self.link.stall_event is not None:
+            # the peer does not read and the socket is full: the send blocks until the driver lets it go
+            self.link.stalled += 1
+            self.link.stall_event.wait()
         res = self.link.on_send(bytes(data))
         return res
 
@@ -148,7 +152,8 @@ class FakeConnection(secsgem.common.Connection):
                     break
             self.link.note("Disconnecting")
             try:
-                self.on_disconnecting({"source": self})
+                if not self.link.abrupt_close:        # a connection layer may report the loss without the "disconnecting" notice
+                    self.on_disconnecting({"source": self})
             except Exception as exc:  # noqa: BLE001
                 self.link.handler_errors.append(("on_disconnecting", repr(exc)))
             self.link.up = False
@@ -183,6 +188,9 @@ class Link:
         self.connect_count = 0
         self.fail_sends = False
         self.on_send_hook = None
+        self.stall_event = None      # simrt.Event: while set to an (unset) event, send_data blocks on it
+        self.stalled = 0
+        self.abrupt_close = False    # skip on_disconnecting in the close sequence
         self.enabled_log = []
 
     def note(self, ev, **kw):
